@@ -29,6 +29,7 @@ type srcRenderer struct {
 	box       bool   // element type *rt.Box instead of int
 	plainVars bool   // co packages: the package-level function variable of odd-numbered programs is declared in plain.go
 	boxV      bool   // ... element type rt.BoxV (a struct VALUE: the yielded expression is a composite literal)
+	gg        bool   // element type Iter[int] (a generator of generators): set per program when it uses ygen
 }
 
 func (sr *srcRenderer) kvName(n string) string {
@@ -218,7 +219,7 @@ func (sr *srcRenderer) yield(v string) string {
 	if sr.md == coMode {
 		return sr.api + "Yield(" + v + ")"
 	}
-	if sr.box {
+	if sr.box || sr.gg {
 		return "rt.YT(yield, " + v + ")"
 	}
 	return "rt.Y(yield, " + v + ")"
@@ -269,6 +270,8 @@ func (sr *srcRenderer) simple(s any) string {
 		return fmt.Sprintf("rt.YF(yield, rt.Pull(func(yield func(int) bool) {\n\tr.E(%d, a, b)\n\trt.Y(yield, a)\n\ta++\n\trt.Y(yield, a)\n}))", num(m["id"]))
 	case "pullit":
 		return fmt.Sprintf("if it.MoveNext() {\n\tr.E(%d, it.Current(), 0)\n} else {\n\tr.E(%d, -1, 0)\n}", num(m["id"]), num(m["id"]))
+	case "ygen":
+		return sr.yield(fmt.Sprintf("D%d(r, %s, b)", num(m["g"]), sr.vexpr(m["arg"])))
 	case "mk2":
 		return "it2 = D2(r, 7, b)"
 	case "yfromit":
@@ -326,7 +329,7 @@ func (sr *srcRenderer) stmt(s any, ind string) string {
 		return ind + sr.simple(s) + "\n" + ind + "_ = " + n + "\n"
 	case "def2":
 		return ind + sr.simple(s) + "\n" + ind + "_, _ = a, b\n"
-	case "eff", "inc", "callf", "passign", "panic", "yield", "yfrom", "setcv", "sets", "setp", "incq", "effkv", "effkk", "effw", "mut", "effx", "pullit", "yfromit", "mk2", "iife", "nestgen":
+	case "eff", "inc", "callf", "passign", "panic", "yield", "yfrom", "setcv", "sets", "setp", "incq", "effkv", "effkk", "effw", "mut", "effx", "pullit", "yfromit", "mk2", "ygen", "iife", "nestgen":
 		return indent(sr.simple(s), ind)
 	case "range":
 		return sr.rangeStmt(m, ind)
@@ -716,6 +719,10 @@ func (sr *srcRenderer) genFunc(name string, prog []any, trailing string) string 
 	sr.fn = name
 	sr.box = strings.Contains(canon(prog), `"k":"fresh"`)
 	elem, natIter, pull := "int", "*rt.NIter", "rt.Pull(func(yield func(int) bool) {"
+	sr.gg = usesKind(prog, "ygen")
+	if sr.gg {
+		elem, natIter, pull = sr.api+"Iter[int]", "*rt.NIterT[*rt.NIter]", "rt.PullT(func(yield func(*rt.NIter) bool) {"
+	}
 	if sr.box {
 		elem, natIter, pull = "*rt.Box", "*rt.NIterT[*rt.Box]", "rt.PullT(func(yield func(*rt.Box) bool) {"
 		if sr.boxV {
